@@ -104,13 +104,13 @@ Definition valid_specb (ps : props) : bool :=
   && match f_MaxJailedPercentage ps with Some z => z * 3 <? PREC | None => false end
   && (f_UnjailMaxTime ps <=? f_SlashingPeriod ps).
 
-Definition others_unchanged (i : option nat) (a b : props) : bool :=
-  let fix go (n : nat) (l m : list fval) : bool :=
-    match l, m with
-    | [], [] => true
-    | x :: l', y :: m' => ((match i with Some k => Nat.eqb k n | None => false end) || fval_eqb x y) && go (S n) l' m'
-    | _, _ => false end in
-  go O (fields a) (fields b).
+Fixpoint others_go (i : option nat) (n : nat) (l m : list fval) : bool :=
+  match l, m with
+  | [], [] => true
+  | x :: l', y :: m' => ((match i with Some k => Nat.eqb k n | None => false end) || fval_eqb x y) && others_go i (S n) l' m'
+  | _, _ => false
+  end.
+Definition others_unchanged (i : option nat) (a b : props) : bool := others_go i O (fields a) (fields b).
 
 (* clauses: "valid" stored record valid; "readback" requested value reads back; "frame" nothing
    else changed; "reject" a rejected request changed nothing; "gate" no permission => no change;
